@@ -38,8 +38,10 @@ namespace sqf::opcodes
                 return;
             }
             else if (right_value->is<sqf::types::t_nothing>())
-            {
+            { // an operator given nil yields nil: it still consumes its left operand and the enclosing expression still gets its operand
                 vm.__logmsg(logmessage::runtime::NilValueFoundForRightArgumentWeak(diag_info()));
+                vm.context_active().pop_value();
+                context.push_value({});
                 return;
             }
 
@@ -61,6 +63,7 @@ namespace sqf::opcodes
             else if (left_value->is<sqf::types::t_nothing>())
             {
                 vm.__logmsg(logmessage::runtime::NilValueFoundForRightArgumentWeak(diag_info()));
+                context.push_value({});
                 return;
             }
 
